@@ -207,18 +207,37 @@ fn drive(which: &str, c: &Case, runs: &mut [Run<'_>], rng: &mut Lcg, stop_after:
     Ok(())
 }
 
-/// a run of for_each_concurrent_mut_with (exclusive borrow of the graph): used for the C15 histories
-fn new_run_mut<'a>(g: &'a mut FnGraph<Acc>, reverse: bool, tag: &str) -> Run<'a> {
+/// a run through one of the ten entry points that borrow the graph exclusively (used for the C15 histories);
+/// the entry points without options always run forward
+const MUT_VARIANTS: usize = 10;
+fn new_run_mut<'a>(g: &'a mut FnGraph<Acc>, reverse: bool, variant: usize, tag: &str) -> Run<'a> {
+    use futures::FutureExt;
     let st = Rc::new(RunSt::default());
     let (waker, cnt) = counting_waker();
+    let with_opts = variant % 2 == 1;
+    let reverse = reverse && with_opts;
     let edges = built_edges(g, reverse);
     let opts = if reverse { StreamOpts::new().rev() } else { StreamOpts::new() };
     let s2 = st.clone();
+    let name = ["for_each_concurrent_mut", "for_each_concurrent_mut_with", "try_for_each_concurrent_mut", "try_for_each_concurrent_mut_with", "try_for_each_concurrent_control_mut",
+                "try_for_each_concurrent_control_mut_with", "fold_async_mut", "fold_async_mut_with", "try_fold_async_mut", "try_fold_async_mut_with"][variant % MUT_VARIANTS];
     let fut: Fut<'a> = Box::pin(async move {
         let s3 = s2.clone();
-        g.for_each_concurrent_mut_with(None, opts, move |f: &mut Acc| { let (s, id) = (s3.clone(), f.id); let gate = s.start(id); async move { gate.await; s.trace.borrow_mut().push(Ev::End(id)); } }).await;
+        let body = move |f: &mut Acc| { let (s, id) = (s3.clone(), f.id); let gate = s.start(id); async move { gate.await; s.trace.borrow_mut().push(Ev::End(id)); } };
+        match variant % MUT_VARIANTS {
+            0 => { g.for_each_concurrent_mut(None, body).await; }
+            1 => { g.for_each_concurrent_mut_with(None, opts, body).await; }
+            2 => { let _ = g.try_for_each_concurrent_mut(None, move |f: &mut Acc| { let fu = body(f); async move { fu.await; Ok::<(), ()>(()) } }).await; }
+            3 => { let _ = g.try_for_each_concurrent_mut_with(None, opts, move |f: &mut Acc| { let fu = body(f); async move { fu.await; Ok::<(), ()>(()) } }).await; }
+            4 => { let _ = g.try_for_each_concurrent_control_mut(None, move |f: &mut Acc| { let fu = body(f); async move { fu.await; std::ops::ControlFlow::<(), ()>::Continue(()) } }).await; }
+            5 => { let _ = g.try_for_each_concurrent_control_mut_with(None, opts, move |f: &mut Acc| { let fu = body(f); async move { fu.await; std::ops::ControlFlow::<(), ()>::Continue(()) } }).await; }
+            6 => { g.fold_async_mut((), move |(), mut f| { let fu = body(&mut *f); async move { fu.await; }.boxed_local() }).await; }
+            7 => { g.fold_async_mut_with((), opts, move |(), mut f| { let fu = body(&mut *f); async move { fu.await; }.boxed_local() }).await; }
+            8 => { let _ = g.try_fold_async_mut((), move |(), mut f| { let fu = body(&mut *f); async move { fu.await; Ok::<(), ()>(()) }.boxed_local() }).await; }
+            _ => { let _ = g.try_fold_async_mut_with((), opts, move |(), mut f| { let fu = body(&mut *f); async move { fu.await; Ok::<(), ()>(()) }.boxed_local() }).await; }
+        }
     });
-    Run { panicked: false, fut: Some(fut), st, waker, cnt, seen: 0, edges, limit: None, label: format!("{tag}for_each_concurrent_mut_with(reverse={reverse})") }
+    Run { panicked: false, fut: Some(fut), st, waker, cnt, seen: 0, edges, limit: None, label: format!("{tag}{name}(reverse={reverse})") }
 }
 
 fn new_run<'a>(g: &'a FnGraph<Acc>, api: Api, reverse: bool, limit: Option<usize>, tag: &str) -> Run<'a> {
@@ -260,14 +279,21 @@ fn run_case(which: &'static str, c: &Case, seed: u64) -> Result<(), String> {
     // ---- C15: history of earlier runs, then the same run on the reused and on a fresh graph
     if on("C15") && c.n <= 50 {
         for api in apis { for reverse in [false, true] {
-            // (api, reverse, dropped after k completions, exclusive-borrow variant)
-            for hist in [vec![(Api::ForEach, false, None, false)], vec![(Api::ForEach, true, None, false)], vec![(Api::Stream, false, Some(1usize), false)], vec![(Api::TryForEach, true, Some(0usize), false)],
-                         vec![(Api::Stream, true, None, false), (Api::ForEach, false, Some(2usize), false)], vec![(Api::ForEach, false, Some(0usize), true)], vec![(Api::ForEach, true, Some(1usize), true)], vec![(Api::ForEach, false, None, true)]] {
+            // (api, reverse, dropped after k completions, Some(v) = through the v-th entry point that borrows the graph exclusively)
+            let mut hists: Vec<Vec<(Api, bool, Option<usize>, Option<usize>)>> = vec![vec![(Api::ForEach, false, None, None)], vec![(Api::ForEach, true, None, None)], vec![(Api::Stream, false, Some(1usize), None)], vec![(Api::TryForEach, true, Some(0usize), None)],
+                         vec![(Api::Stream, true, None, None), (Api::ForEach, false, Some(2usize), None)]];
+            for v in 0..MUT_VARIANTS {
+                // every exclusive entry point: dropped at once, dropped after one completion (reverse where it takes options), run to the end
+                hists.push(vec![(Api::ForEach, false, Some(0usize), Some(v))]);
+                hists.push(vec![(Api::ForEach, true, Some(1usize), Some(v))]);
+                if v < 2 || api == Api::ForEach { hists.push(vec![(Api::ForEach, false, None, Some(v))]); }
+            }
+            for hist in hists {
                 let mut g = build(c);
                 for (k, &(ha, hr, stop, exclusive)) in hist.iter().enumerate() {
                     let mut rng = Lcg(seed ^ (0xc15 + k as u64));
-                    if exclusive {
-                        let mut runs = [new_run_mut(&mut g, hr, "earlier run: ")];
+                    if let Some(v) = exclusive {
+                        let mut runs = [new_run_mut(&mut g, hr, v, "earlier run: ")];
                         let _ = drive("none", c, &mut runs, &mut rng, stop);
                     } else {
                         let mut runs = [new_run(&g, ha, hr, None, "earlier run: ")];
@@ -286,7 +312,7 @@ fn run_case(which: &'static str, c: &Case, seed: u64) -> Result<(), String> {
                 let fresh = build(c);
                 let (t_fresh, _) = final_trace(&fresh);
                 if t_reused != t_fresh || r_reused.is_err() {
-                    return Err(format!("C15: after the history {hist:?} (api, reverse, dropped after k completions, *_mut variant) the run {api:?}(reverse={reverse}) on the reused graph gives trace {t_reused:?}{} but on a fresh graph {t_fresh:?} ({})", r_reused.err().map(|e| format!(" [{e}]")).unwrap_or_default(), c.desc));
+                    return Err(format!("C15: after the history {hist:?} (api, reverse, dropped after k completions, exclusive entry point) the run {api:?}(reverse={reverse}) on the reused graph gives trace {t_reused:?}{} but on a fresh graph {t_fresh:?} ({})", r_reused.err().map(|e| format!(" [{e}]")).unwrap_or_default(), c.desc));
                 }
             }
         } }
